@@ -199,12 +199,13 @@ props["C13"]["manifest"] = {
 }
 
 props["C14"] = {
+    "needs_cli": True,
     "harness": "c12",
     "harness_args": ["--only", "c14"],
     "level": "other",
     "nontrivial": r"^# (comment|space|plain|corpus|literal|broken|hbase|hspace):",
     "timeout": {"quick": 1500, "thorough": 10800},
-    "rule": "inputs: " + FORMATTER_STREAMS + ". Oracles for C14: format(format(x)) = format(x) byte for byte (on failure the third pass tells creep from a two-step convergence); the output ends with exactly one newline; a source and its horizontally re-spaced twin (outside verbatim regions) format to the same text; on a real file `check_path` reports changed exactly when `format_path` modifies the file, never writes, and both agree with the in-process rendering.",
+    "rule": "inputs: " + FORMATTER_STREAMS + ". Oracles for C14: format(format(x)) = format(x) byte for byte (on failure the third pass tells creep from a two-step convergence); the output ends with exactly one newline; a source and its horizontally re-spaced twin (outside verbatim regions) format to the same text; on a real file `check_path` reports changed exactly when `format_path` modifies the file, never writes, and both agree with the in-process rendering; the rebuilt `zydeco` binary is run with one to three files on one command line in every order of to-be-rewritten and already-formatted files: `fmt --check` exits 1 exactly when some file would change and lists exactly those files, `fmt` exits 0, leaves every file as the rendered text, and `fmt --check` afterwards exits 0.",
     "explanation": "The printer is not modelled, so idempotence and canonicity are decided by search with exact byte oracles. Kernel-checked: the command-line adapter (format.rs / format_sources in main.rs) over an abstract renderer - `--check` reports changed iff `fmt` would modify, never writes, unparseable files are untouched, exit status.",
     "trusted_base": [KERNEL, AXIOMS, HARNESS,
                      "modelled, not verified: SourceFormatter::{format_path, check_path} and format_sources are mirrored by ZV/Model/FmtCli.lean; the real SourceFormatter is exercised on every input and compared with the byte oracles, not with the model line by line",
